@@ -31,8 +31,8 @@ def MA.seq (a b : MA) : MA := (a.1 || b.1, a.2.1 || b.2.1, a.2.2 || b.2.2 || (a.
 /-- a damaged MAP count shifts every byte decoded after it, so an array count that is read later (below the map, in a
 later item of an enclosing collection, or in a later field) can become garbage -/
 partial def mapThenArray : Codec → MA
-  | .map v _ => let s := mapThenArray v; MA.seq (true, false, false) (MA.seq s s)
-  | .array c _ => let s := mapThenArray c; MA.seq (false, true, false) (MA.seq s s)
+  | .map v _ => let s := mapThenArray v; MA.seq (true, false, false) (MA.seq (MA.seq s s) (true, false, false))
+  | .array c _ => let s := mapThenArray c; MA.seq (false, true, false) (MA.seq (MA.seq s s) (false, true, false))  -- the next block's count follows the items
   | .pointer c => mapThenArray c
   | .record _ cs _ => cs.foldl (fun acc c => MA.seq acc (mapThenArray c)) (false, false, false)
   | .union cs => cs.foldl (fun acc c => let s := mapThenArray c; (acc.1 || s.1, acc.2.1 || s.2.1, acc.2.2 || s.2.2)) (false, false, false)
